@@ -340,6 +340,15 @@ func (c *context) RecvMsg() (*protocol.Message, error) {
 		c.cond.Wait()
 	}
 
+	if c.reqID != id && c.reqID != 0 {
+		// Our request was abandoned by a new SendMsg on this context while
+		// we waited.  The new request (and any reply it may already have)
+		// belongs to the next RecvMsg, so leave its state untouched.
+		c.receiveWait = false
+		c.cond.Broadcast()
+		return nil, protocol.ErrCanceled
+	}
+
 	m := c.repMsg
 	c.reqID = 0
 	c.repMsg = nil
